@@ -111,10 +111,13 @@ def get_sparse_chemical_data(sparse, index, kind):
 def reset_sparse_chemical_data(sparse, data):
     if data is sparse: return
     dct = sparse.dct
-    dct.clear()
     if data.__class__ is SparseVector:
-        dct.update(data.dct)
+        data_dct = data.dct
+        if data_dct.__class__ is not dict: data_dct = data_dct.copy() # A view: evaluate before clearing
+        dct.clear()
+        dct.update(data_dct)
     else:
+        dct.clear()
         ndim = get_ndim(data)
         if ndim == 0:
             if data:
